@@ -43,7 +43,7 @@ EXPLANATION = (
     'symbolic vertices, both orderings of the edge widths; symbolic denominators cleared by exact polynomial arithmetic, '
     'vlib/ratpoly.py, before z3 decides the division-free statement); a witness counts only if the property\'s own '
     'criterion fails on the real bank in a long buffer.')
-BOUNDS = {'quick': 'all sigma > 0 / alpha > 0 (symbolic), gammatone orders 3-6, Gabor impulse/frequency response evaluated at 4 sample points / 2 bins; '
+BOUNDS = {'quick': 'all sigma > 0 / alpha > 0 (symbolic), gammatone orders 3-6 (temporal-support search with the threshold re-configured after the module is loaded), Gabor impulse/frequency response evaluated at 4 sample points / 2 bins; '
                    'Gabor sample placement for buffer widths 2,3,4,5,8; triangular closed form for widths 2,3,5; gammatone closed form for (order, width) = (4,5) (4,40) (8,600), support 1.5 x width',
           'thorough': 'gammatone orders 3-8; placement widths 1-9, 12, 15; triangular closed form widths 1-5, 8; closed form also (3,7) (6,64) (8,1030)'}
 OUTSIDE = ['the central IDFT-agreement clause (see above)', 'straddling of sample 0 for Fbank and Gabor supports (needs numeric bounds on a cube root / on sigma*sqrt(const - 2 log sigma); z3 stays undecided)', 'magnitudes outside supports in a finite buffer (needs the same aliasing analysis)',
